@@ -51,6 +51,11 @@ pub struct CompPlan {
     /// afterwards is which iterator walks the module)
     #[serde(default)]
     pub pre: Vec<(u32, u8, i64, u32)>,
+    /// indices into `sites` of the sites that are not made where the cursor stands but through the
+    /// explicit-location calls (`<mode>_at(loc)` + `add_instr_at(loc, op)`) at the very first position of
+    /// the walk, i.e. (in a component) usually while the cursor is in ANOTHER module
+    #[serde(default)]
+    pub far: Vec<u32>,
 }
 
 /// (params, results) of the function import `imp` of `m` if a body of constants can be built for it
@@ -258,6 +263,9 @@ pub fn gen_c26_for(property: &str, run_seed: u64) -> Result<Scenario, String> {
             clear: false,
         };
         let use_inject_at = rng.chance(1, 3) && !matches!(mode, Mode::FuncEntry | Mode::FuncExit);
+        if !use_inject_at && !matches!(mode, Mode::FuncEntry | Mode::FuncExit) && rng.chance(1, 4) {
+            plan.far.push(plan.sites.len() as u32);
+        }
         plan.sites.push((k as u32, func, site, use_inject_at));
     }
     for _ in 0..rng.below(4) {
@@ -484,7 +492,22 @@ pub fn judge_c26(sc: &Scenario) -> (Judged, RunResult) {
                         let op = it.curr_op().map(Ins::from_op).unwrap_or(Ins::Unknown("none".into()));
                         // injections at this position
                         let mut pending_finish = false;
+                        if traj.is_empty() {
+                            for si in &plan.far {
+                                let (mk, f, s, _) = &plan.sites[*si as usize];
+                                if *mk as usize == k {
+                                    let loc = Location::Module { func_idx: FunctionID(*f), instr_idx: s.instr as usize };
+                                    crate::exec::set_mode_at(&mut it, s.mode, loc);
+                                    for op in read_ops(&arena[ranges[*si as usize].0..ranges[*si as usize].1]) {
+                                        it.add_instr_at(loc, op);
+                                    }
+                                }
+                            }
+                        }
                         for (si, (mk, f, s, at)) in plan.sites.iter().enumerate() {
+                            if plan.far.contains(&(si as u32)) {
+                                continue;
+                            }
                             if *mk as usize == k && *f == *func_idx {
                                 let ops: Vec<Operator> = read_ops(&arena[ranges[si].0..ranges[si].1]);
                                 if *at {
@@ -598,7 +621,20 @@ pub fn judge_c26(sc: &Scenario) -> (Judged, RunResult) {
             if let (Location::Component { mod_idx, func_idx, instr_idx }, is_end) = it.curr_loc() {
                 let op = it.curr_op().map(Ins::from_op).unwrap_or(Ins::Unknown("none".into()));
                 let mut pending_finish = false;
+                if traj.is_empty() {
+                    for si in &plan.far {
+                        let (mk, f, s, _) = &plan.sites[*si as usize];
+                        let loc = Location::Component { mod_idx: ModuleID(*mk), func_idx: FunctionID(*f), instr_idx: s.instr as usize };
+                        crate::exec::set_mode_at(&mut it, s.mode, loc);
+                        for op in read_ops(&arena[ranges[*si as usize].0..ranges[*si as usize].1]) {
+                            it.add_instr_at(loc, op);
+                        }
+                    }
+                }
                 for (si, (mk, f, s, at)) in plan.sites.iter().enumerate() {
+                    if plan.far.contains(&(si as u32)) {
+                        continue;
+                    }
                     if *mk == *mod_idx && *f == *func_idx {
                         let ops: Vec<Operator> = read_ops(&arena[ranges[si].0..ranges[si].1]);
                         if *at {
